@@ -706,7 +706,144 @@ def group_durations(ctx, stats):
         ctx.sample({'group': 'duration', 'example': reqs[1]['e'], 'impl': impl[1]})
 
 
-GROUPS = [('validity', group_validity), ('from_numbers', group_numbers), ('order', group_order), ('datetime', group_datetime),
+
+# ---------------------------------------------------------------- Z: named zones against an independent copy of the zone database (zoneinfo)
+# DST-observing zones of both hemispheres (incl. a 30-minute DST and a 45-minute base offset) and zones without DST
+TZ_ZONES = ['Europe/Warsaw', 'Europe/London', 'Europe/Lisbon', 'America/New_York', 'America/Los_Angeles', 'America/St_Johns', 'America/Sao_Paulo', 'America/Santiago',
+            'Australia/Sydney', 'Australia/Lord_Howe', 'Pacific/Auckland', 'Pacific/Chatham', 'Asia/Kolkata', 'Asia/Tokyo', 'Africa/Johannesburg', 'Pacific/Honolulu', 'Asia/Kathmandu']
+TZ_YEARS = (1990, 2021)     # years where chrono-tz's database and the system tzdata are expected to agree
+
+
+def zone_transitions(tz, year):
+    """UTC instants (datetime, tz-aware UTC) in `year` at which the zone's offset changes, found by daily scan + bisection to the minute"""
+    utc = datetime.timezone.utc
+    out = []
+    t = datetime.datetime(year, 1, 1, 12, tzinfo=utc)
+    end = datetime.datetime(year + 1, 1, 1, 12, tzinfo=utc)
+    prev = t.astimezone(tz).utcoffset()
+    while t < end:
+        n = t + datetime.timedelta(days=1)
+        cur = n.astimezone(tz).utcoffset()
+        if cur != prev:
+            lo, hi = t, n
+            while hi - lo > datetime.timedelta(minutes=1):
+                mid = lo + (hi - lo) / 2
+                mid = mid.replace(second=0, microsecond=0)
+                if mid <= lo:
+                    break
+                if mid.astimezone(tz).utcoffset() == prev:
+                    lo = mid
+                else:
+                    hi = mid
+            out.append(hi)
+        prev = cur
+        t = n
+    return out
+
+
+def zone_samples(ctx, stats_only=False):
+    """(zone, wall-clock naive datetime, offset seconds by zoneinfo, UTC naive datetime) near transitions, never a repeated local time"""
+    import zoneinfo
+    rng = ctx.rng
+    utc = datetime.timezone.utc
+    samples = []
+    for zn in TZ_ZONES:
+        try:
+            tz = zoneinfo.ZoneInfo(zn)
+        except Exception:
+            continue
+        years = list(range(TZ_YEARS[0], TZ_YEARS[1] + 1))
+        if ctx.quick:
+            years = sorted(rng.sample(years, 5) + [2020])
+        for y in years:
+            trs = zone_transitions(tz, y)
+            points = []
+            if not trs:
+                points = [datetime.datetime(y, rng.randint(1, 12), rng.randint(1, 28), rng.randint(0, 23), rng.randint(0, 59), rng.randint(0, 59), tzinfo=utc) for _ in range(2)]
+            for T in trs:
+                ks = [-300, -241, -180, -121, -90, -61, -30, -1, 0, 1, 29, 59, 61, 90, 119, 121, 150, 181, 240, 299] if not ctx.quick else \
+                     [-300, -181, -121, -61, -30, -1, 0, 30, 61, 121, 181, 299]
+                for k in ks:
+                    points.append(T + datetime.timedelta(minutes=k, seconds=rng.choice([0, 0, 30, 59])))
+                for dd in (-2, -1, 1, 2):
+                    points.append(T + datetime.timedelta(days=dd, minutes=rng.randint(-300, 300)))
+            for u in points:
+                loc = u.astimezone(tz)
+                wall = loc.replace(tzinfo=None)
+                o0 = wall.replace(tzinfo=tz, fold=0).utcoffset()
+                o1 = wall.replace(tzinfo=tz, fold=1).utcoffset()
+                if o0 != o1:
+                    continue        # a repeated local time: outside the property's domain
+                off = loc.utcoffset()
+                if off != o0 or off.microseconds or off.total_seconds() % 60:
+                    continue        # (a skipped local time cannot arise from an instant; sub-minute offsets are pre-1990 only)
+                samples.append((zn, wall, int(off.total_seconds()), u.replace(tzinfo=None)))
+    return samples
+
+
+def wall_text(w):
+    return '%04d-%02d-%02dT%02d:%02d:%02d' % (w.year, w.month, w.day, w.hour, w.minute, w.second)
+
+
+def group_zones(ctx, stats):
+    samples = zone_samples(ctx)
+    if len(samples) < 200:
+        raise RuntimeError('C15: the zoneinfo oracle produced only %d samples (is the system tzdata missing?)' % len(samples))
+    reqs, meta = [], []
+    # single values: offset, equality and order against the same instant written with Z and with the explicit offset
+    for zn, w, off, u in samples:
+        a = 'date and time("%s@%s")' % (wall_text(w), zn)
+        z = 'date and time("%sZ")' % wall_text(u)
+        o = 'date and time("%s%s")' % (wall_text(w), off_text(off) if off else 'Z')
+        reqs.append({'e': '{a: %s, z: %s, o: %s, r: [a.time offset, a = z, a = o, a - z, z - a, a in (<= z), a in (>= z), a in (< z), a between o and z, a.timezone, a.hour]}.r' % (a, z, o)})
+        meta.append(('one', zn, w, off, u))
+    # pairs inside one zone across / around the switch: exact instant difference
+    by_zone = {}
+    for smp in samples:
+        by_zone.setdefault(smp[0], []).append(smp)
+    for zn, lst in by_zone.items():
+        lst.sort(key=lambda x: x[3])
+        for i in range(len(lst) - 1):
+            for j in (i + 1, min(i + 3, len(lst) - 1)):
+                if j == i:
+                    continue
+                (_, w1, o1, u1), (_, w2, o2, u2) = lst[i], lst[j]
+                if abs((u2 - u1).days) > 30:
+                    continue
+                a = 'date and time("%s@%s")' % (wall_text(w1), zn)
+                b = 'date and time("%s@%s")' % (wall_text(w2), zn)
+                reqs.append({'e': '{a: %s, b: %s, r: [b - a, a - b, a in (< b), a = b, b in (> a)]}.r' % (a, b)})
+                meta.append(('pair', zn, (w1, w2), (o1, o2), (u1, u2)))
+    impl = ctx.run_impl('feel', reqs)
+    disagreements = {}
+    for m, rq, r in zip(meta, reqs, impl):
+        ctx.evaluations += 1
+        stats['zones'] = stats.get('zones', 0) + 1
+        v = val(r)
+        case = {'group': 'zones', 'expr': rq['e'], 'zone': m[1]}
+        ctx.corr_checked += 1
+        if m[0] == 'one':
+            _, zn, w, off, u = m
+            want = [{'dtd': dtd_text(off * NS)}, True, True, {'dtd': 'PT0S'}, {'dtd': 'PT0S'}, True, True, False, True, zn, {'n': None}]
+            ctx.nontrivial.add((zn, w))
+            ok = isinstance(v, list) and len(v) == 11 and v[:10] == want[:10] and num(v[10]) == w.hour
+            if not ok:
+                ctx.violation('%s@%s is the instant %sZ (UTC offset %s by the zone rules): [time offset, = same instant with Z, = same wall time with the explicit offset, a - z, z - a, '
+                              '<=, >=, <, between, timezone] = %s, expected %s' % (wall_text(w), zn, wall_text(u), off_text(off) or 'Z', json.dumps(v[:10] if isinstance(v, list) else v), json.dumps(want[:10])),
+                              case, impl=v, model=want[:10])
+        else:
+            _, zn, (w1, w2), (o1, o2), (u1, u2) = m
+            diff = int((u2 - u1).total_seconds()) * NS
+            want = [{'dtd': dtd_text(diff)}, {'dtd': dtd_text(-diff)}, diff > 0, diff == 0, diff > 0]
+            if o1 != o2:
+                ctx.nontrivial.add((zn, w1, w2))
+            if v != want:
+                ctx.violation('%s and %s in %s are %d s apart on the UTC time line (offsets %s, %s): [b - a, a - b, a in (< b), a = b, b in (> a)] = %s, expected %s' % (
+                    wall_text(w1), wall_text(w2), zn, diff // NS, off_text(o1) or 'Z', off_text(o2) or 'Z', json.dumps(v), json.dumps(want)), case, impl=v, model=want)
+    ctx.sample({'group': 'zones', 'example': reqs[0]['e'], 'impl': impl[0], 'zones': sorted(by_zone), 'samples': len(samples)})
+
+
+GROUPS = [('zones', group_zones), ('validity', group_validity), ('from_numbers', group_numbers), ('order', group_order), ('datetime', group_datetime),
           ('months', group_months), ('duration', group_durations)]
 
 
